@@ -110,7 +110,7 @@ structure Tableau (α : Type) where
   c : List α
   A : List (List α)
   b : List α
-  deriving Repr
+  deriving Repr, DecidableEq
 
 def Tableau.map {α β : Type} (g : α → β) (T : Tableau α) : Tableau β :=
   { c := T.c.map g, A := T.A.map (fun r => r.map g), b := T.b.map g }
